@@ -1,7 +1,8 @@
-(** C05 - malformed input is rejected, never silently repaired (PARTIAL: lexical clauses and separator checking proved;
-    the token-level "no junk" theorem (C) for the whole grammar is carried by the correspondence against an independent
-    recogniser). *)
-From EE Require Import Chars OpTable Decimal Token Lexer Ast Parser Api Utf8 LexerSpec LexerTiling ParserTotal ParserLexErr ParserFuel.
+(** C05 - malformed input is rejected, never silently repaired.
+    Lexical clauses (unterminated string, malformed number, lexical errors never swallowed) and, at the level of tokens, the
+    "no junk" theorem (C): whatever the parser accepts is a sentence of the documented lenient grammar [Gprog], every token in
+    its place (Lemmas/Grammar.v); so everything outside the grammar is answered with Err. *)
+From EE Require Import Chars OpTable Decimal Token Lexer Ast Parser Api Utf8 LexerSpec LexerTiling ParserTotal ParserLexErr ParserFuel Grammar ImplTable.
 Open Scope N_scope.
 
 (* an unterminated string is a lexical error, whatever follows the opening quote *)
@@ -88,3 +89,47 @@ Example C05_example :
   api_parse tbl [91; 49; 32; 39; 44; 39; 32; 50; 93] = Err /\ api_parse tbl [39; 97] = Err.          (* [1 ',' 2]   'a  *)
 Proof. vm_compute. repeat split; discriminate. Qed.
 Print Assumptions C05_example.
+
+(* NO JUNK. For every operator table whose infix precedences are positive: if the parser accepts a token sequence then that
+   sequence is derivable in the documented grammar (expressions over literals, names, calls f(a,...), lists [a,...,] and maps
+   {k:v,...,} with optional trailing comma, parenthesised expressions, prefix / postfix / infix operators, `x not OP y`,
+   `c ? a : b`; statements with optional `;`) and the tree returned is the tree of that derivation: no token dropped, none
+   read as another, every delimiter and separator matched by spelling. *)
+Theorem C05_grammar_sound : forall tbl ts t, tbl_pos tbl -> parse_tokens tbl TmEof ts = Ok t -> Gprog tbl ts t.
+Proof. intros tbl ts t P H. exact (parse_sound tbl P ts t H). Qed.
+Print Assumptions C05_grammar_sound.
+
+(* hence an input that is not a sentence of the grammar is answered with Err (not Ok, not a panic, not a hang) *)
+Theorem C05_outside_grammar_rejected : forall tbl ts, tbl_pos tbl -> (forall t, ~ Gprog tbl ts t) -> parse_tokens tbl TmEof ts = Err.
+Proof.
+  intros tbl ts P NG.
+  pose proof (parse_tokens_np tbl TmEof ltac:(discriminate) ts) as NoPanic.
+  pose proof (parse_tokens_terminates tbl TmEof ltac:(discriminate) ts) as NoFuel.
+  destruct (parse_tokens tbl TmEof ts) as [t| | |] eqn:E; [exfalso; exact (NG t (parse_sound tbl P ts t E)) | reflexivity | contradiction | contradiction].
+Qed.
+Print Assumptions C05_outside_grammar_rejected.
+
+(* read off the grammar: a program cannot start with a stray comma, semicolon, closing delimiter or non-prefix operator,
+   and cannot end with an operator that lacks its right operand, an opening delimiter or a comma *)
+Theorem C05_bad_start_rejected : forall tbl t0 rest, tbl_pos tbl -> ~ starter tbl t0 -> parse_tokens tbl TmEof (t0 :: rest) = Err.
+Proof.
+  intros tbl t0 rest P NS.
+  pose proof (parse_tokens_np tbl TmEof ltac:(discriminate) (t0 :: rest)) as NoPanic.
+  pose proof (parse_tokens_terminates tbl TmEof ltac:(discriminate) (t0 :: rest)) as NoFuel.
+  destruct (parse_tokens tbl TmEof (t0 :: rest)) as [t| | |] eqn:E; [exfalso; exact (bad_start_rejected tbl P t0 rest t NS E) | reflexivity | contradiction | contradiction].
+Qed.
+Print Assumptions C05_bad_start_rejected.
+
+Theorem C05_bad_end_rejected : forall tbl pre tl, tbl_pos tbl -> ~ ender tbl tl -> tl <> TSemi -> parse_tokens tbl TmEof (pre ++ [tl]) = Err.
+Proof.
+  intros tbl pre tl P NE NS.
+  pose proof (parse_tokens_np tbl TmEof ltac:(discriminate) (pre ++ [tl])) as NoPanic.
+  pose proof (parse_tokens_terminates tbl TmEof ltac:(discriminate) (pre ++ [tl])) as NoFuel.
+  destruct (parse_tokens tbl TmEof (pre ++ [tl])) as [t| | |] eqn:E; [exfalso; exact (bad_end_rejected tbl P pre tl t NE NS E) | reflexivity | contradiction | contradiction].
+Qed.
+Print Assumptions C05_bad_end_rejected.
+
+(* the hypothesis holds for the table dumped from the implementation on this run *)
+Theorem C05_builtin_table_positive : tbl_pos builtin_table.
+Proof. apply tbl_posb_ok. vm_compute. reflexivity. Qed.
+Print Assumptions C05_builtin_table_positive.
